@@ -18,9 +18,9 @@ func init() {
 		Bounds: func(thorough bool) map[string]string {
 			if thorough {
 				return map[string]string{
-					"MapSet[int]":                "histories of 1..5 operations over Add/Delete/Clear/Clone(+mutate clone)/Equal with symbolic values in 0..2; all observers (Len, Has with symbolic probe, Values, Range with early stop) compared with the abstract set for the set and its clone",
-					"SortedSliceSet[int]":        "construction from 0..3 values, histories of 0..4 operations over Add/Delete/Clear/Clone(+Add/Delete on the clone), values forked over 0..2 (every order pattern); observers incl. strict ascent of Values/Range; Equal against an independently built set",
-					"RingBuffer[int]":            "capacity 0..4, 1..7 operations over Push (symbolic non-zero values)/Clear; Range (early stop 0..3), ReverseRange, Len, Current compared with the last min(k,n) values",
+					"MapSet[int]":                "histories of 1..4 operations over Add/Delete/Clear/Clone(+mutate clone)/Equal with symbolic values in 0..3; all observers (Len, Has with symbolic probe, Values, Range with early stop) compared with the abstract set for the set and its clone",
+					"SortedSliceSet[int]":        "construction from 0..2 values, histories of 0..3 operations over Add/Delete/Clear/Clone(+Add/Delete on the clone), values forked over 0..2 (every order pattern); observers incl. strict ascent of Values/Range; Equal against an independently built set",
+					"RingBuffer[int]":            "capacity 0..4, 1..6 operations over Push (symbolic non-zero values)/Clear; Range (early stop 0..3), ReverseRange, Len, Current compared with the last min(k,n) values",
 					"SortedSliceSet constructor": "0..5 arbitrary values in 0..3 in arbitrary order (duplicates anywhere), then one Delete; all observers",
 					"append":                     "every append inside the container code that has to grow gets 0 or 1 spare slots (aliasing through spare capacity is visible)",
 				}
